@@ -496,6 +496,12 @@ func drive(args []string) int {
 	// ---- floors ----
 	var missed []string
 	for _, f := range mon.SortedKeys(p.Floors) {
+		if strings.HasPrefix(f, "#") {
+			if len(total.Extra[f[1:]]) < p.Floors[f] {
+				missed = append(missed, fmt.Sprintf("%s=%d<%d", f, len(total.Extra[f[1:]]), p.Floors[f]))
+			}
+			continue
+		}
 		if total.Features[f] < p.Floors[f] {
 			missed = append(missed, fmt.Sprintf("%s=%d<%d", f, total.Features[f], p.Floors[f]))
 		}
